@@ -680,6 +680,16 @@ func init() {
 					s.abort[id] = k
 					s.mu.Unlock()
 					return "armed"
+				case "setpolicy": // ignoreCC force dfltSec : the cache policy changes on the RUNNING proxy (an accepted config update)
+					b := func(x string) bool { return x == "1" }
+					dflt, _ := strconv.Atoi(f[4])
+					s.cfg.Proxy.CachePolicy.IgnoreCacheControl.Overwrite(b(f[2]))
+					s.cfg.Proxy.CachePolicy.ForceDefaultMaxAge.Overwrite(b(f[3]))
+					s.cfg.Proxy.CachePolicy.DefaultMaxAge.Overwrite(duration.Duration(time.Duration(dflt) * time.Second))
+					// listeners (if any component subscribes) are notified asynchronously: give them a moment
+					time.Sleep(2 * time.Millisecond)
+					o.Count("op:setpolicy")
+					return "policy-set"
 				case "abort2": // id k chunked(0|1) : EVERY upstream GET of the next exchange (the shared fetch and the direct fallback) is cut after k bytes
 					id, _ := strconv.Atoi(f[2])
 					k, _ := strconv.Atoi(f[3])
@@ -851,6 +861,12 @@ func genProxyTrace(c runCfg, o *Out, emit func(...string)) {
 		for i := 0; i < nops; i++ {
 			id := r.Intn(nres)
 			switch x := r.Intn(100); {
+			case x >= 84 && x < 86 && limit == "1000000":
+				// the operator changes the cache policy at run time: the following exchanges are judged by the NEW policy
+				emit("px", "setpolicy", itoa(r.Intn(2)), itoa(r.Intn(2)), itoa([]int{5, 30, 120}[r.Intn(3)]))
+				setOrigin(id)
+				emit("px", "req", itoa(id), "GET", "-", "-", "-", "0", "-", "-")
+				emit("px", "req", itoa(id), "GET", "-", "-", "-", "0", "-", "-")
 			case x < 62:
 				method := "GET"
 				if r.Chance(12) {
